@@ -225,13 +225,116 @@ theorem function_imports_complete (S : Schemas) (m : Model) (h : opsetLegal S m 
   obtain ⟨fv, h1, h2, h3⟩ := hf f hfm
   exact ⟨⟨fv, h1, h2⟩, fun p g hg n hn => (h3 p g hg n hn).domain_imported⟩
 
+/-! ### element types against the type constraints -/
+
+/-- The declared element types of the inputs of a default-domain node satisfy the type constraints of
+    the signature in force: each annotated input has an admitted element type, and annotated inputs
+    bound to one type variable (`T`) have one element type. -/
+structure NodeTyped (S : Schemas) (v : Nat) (vis : List (String × Annot)) (n : Node) : Prop where
+  typed : n.domain = "" → ∀ sigs s, lookupOp S n.op = some sigs → sigAt sigs v = some s →
+    (∀ k x d, n.ins[k]? = some x → x ≠ "" → dtypeOf vis x = some d →
+        allowedAt s k = [] ∨ d ∈ allowedAt s k) ∧
+    (∀ k₁ k₂ x₁ x₂ d₁ d₂, n.ins[k₁]? = some x₁ → n.ins[k₂]? = some x₂ → x₁ ≠ "" → x₂ ≠ "" →
+        dtypeOf vis x₁ = some d₁ → dtypeOf vis x₂ = some d₂ →
+        varAt s k₁ ≠ 0 → varAt s k₁ = varAt s k₂ → d₁ = d₂)
+
+structure TypesHonoured (S : Schemas) (m : Model) : Prop where
+  honoured : ∃ v, importVersion "" m.imports = some v ∧
+    (∀ p vis g, m.graph.atV? p [] = some (vis, g) → ∀ n ∈ g.nodes, NodeTyped S v vis n) ∧
+    ∀ f ∈ m.funcs, ∃ fv, importVersion "" f.imports = some fv ∧
+      ∀ p vis g, f.asGraph.atV? p [] = some (vis, g) → ∀ n ∈ g.nodes, NodeTyped S fv vis n
+
+theorem inputFacts_mem (s : Sig) (vis : List (String × Annot)) :
+    ∀ (ins : List String) (k0 k : Nat) (x : String) (d : Nat), ins[k]? = some x → x ≠ "" →
+      dtypeOf vis x = some d → (k0 + k, d) ∈ inputFacts s vis ins k0
+  | [], _, k, _, _, h, _, _ => by simp at h
+  | y :: rest, k0, 0, x, d, h, hne, hd => by
+    simp only [List.getElem?_cons_zero, Option.some.injEq] at h
+    subst h
+    have : (y == "") = false := by simpa using hne
+    simp only [inputFacts, this, Bool.false_eq_true, if_false, hd, Nat.add_zero]
+    exact List.mem_cons_self
+  | y :: rest, k0, k + 1, x, d, h, hne, hd => by
+    simp only [List.getElem?_cons_succ] at h
+    have ih := inputFacts_mem s vis rest (k0 + 1) k x d h hne hd
+    have e : k0 + 1 + k = k0 + (k + 1) := by omega
+    rw [e] at ih
+    simp only [inputFacts]
+    split
+    · exact ih
+    · exact List.mem_cons_of_mem _ ih
+
+theorem pairsOK_sound (s : Sig) : ∀ (l : List (Nat × Nat)), pairsOK s l = true →
+    ∀ f ∈ l, ∀ g ∈ l, varAt s f.1 ≠ 0 → varAt s f.1 = varAt s g.1 → f.2 = g.2
+  | [], _, f, hf, _, _, _, _ => by cases hf
+  | x :: rest, h, f, hf, g, hg, hv, he => by
+    simp only [pairsOK, Bool.and_eq_true] at h
+    have hall := List.all_eq_true.mp h.1
+    rcases List.mem_cons.mp hf with rfl | hf' <;> rcases List.mem_cons.mp hg with rfl | hg'
+    · rfl
+    · have := hall g hg'
+      simp only [pairOK, Bool.or_eq_true, beq_iff_eq, bne_iff_ne, ne_eq] at this
+      rcases this with (h0 | hne) | heq
+      · exact absurd h0 hv
+      · exact absurd he hne
+      · exact heq
+    · have := hall f hf'
+      simp only [pairOK, Bool.or_eq_true, beq_iff_eq, bne_iff_ne, ne_eq] at this
+      rcases this with (h0 | hne) | heq
+      · exact absurd (he ▸ h0) hv
+      · exact absurd he.symm hne
+      · exact heq.symm
+    · exact pairsOK_sound s rest h.2 f hf' g hg' hv he
+
+theorem nodeTypedB_sound (S : Schemas) (v : Nat) (vis : List (String × Annot)) (n : Node)
+    (h : nodeTypedB S v vis n = true) : NodeTyped S v vis n := by
+  constructor
+  intro hd sigs s hl hs
+  have hdom : (n.domain != "") = false := by simp [hd]
+  simp only [nodeTypedB, hdom, Bool.false_eq_true, if_false, hl, hs, sigTyped, Bool.and_eq_true] at h
+  obtain ⟨h1, h2⟩ := h
+  refine ⟨?_, ?_⟩
+  · intro k x d hk hne hdt
+    have hm := inputFacts_mem s vis n.ins 0 k x d hk hne hdt
+    rw [Nat.zero_add] at hm
+    have := (List.all_eq_true.mp h1) _ hm
+    simp only [factOK, Bool.or_eq_true, List.isEmpty_iff] at this
+    rcases this with h | h
+    · exact Or.inl h
+    · exact Or.inr (List.contains_iff_mem.mp h)
+  · intro k₁ k₂ x₁ x₂ d₁ d₂ hk₁ hk₂ hn₁ hn₂ hd₁ hd₂ hv he
+    have m₁ := inputFacts_mem s vis n.ins 0 k₁ x₁ d₁ hk₁ hn₁ hd₁
+    have m₂ := inputFacts_mem s vis n.ins 0 k₂ x₂ d₂ hk₂ hn₂ hd₂
+    rw [Nat.zero_add] at m₁ m₂
+    exact pairsOK_sound s _ h2 _ m₁ _ m₂ hv he
+
+/-- **Soundness of the element-type check**, every scope at every depth (annotations visible in a
+    scope: its own, then those of the enclosing scopes), function bodies included. -/
+theorem typesLegal_sound (S : Schemas) (m : Model) (h : typesLegal S m = true) : TypesHonoured S m := by
+  unfold typesLegal at h
+  split at h
+  · cases h
+  · rename_i v hv
+    simp only [Bool.and_eq_true] at h
+    refine ⟨v, hv, ?_, ?_⟩
+    · intro p vis g hg n hn
+      exact nodeTypedB_sound S v vis n (allNodesV_sound _ p [] m.graph h.1 vis g hg n hn)
+    · intro f hf
+      have hfl := (List.all_eq_true.mp h.2) f hf
+      split at hfl
+      · cases hfl
+      · rename_i fv hfv
+        refine ⟨fv, hfv, ?_⟩
+        intro p vis g hg n hn
+        exact nodeTypedB_sound S fv vis n (allNodesV_sound _ p [] f.asGraph hfl vis g hg n hn)
+
 /-! ### non-vacuity (a hand-written two-operator table) -/
 
 def exS : Schemas :=
-  [("ReduceMean", [⟨1, 1, 1, 1, 1, false, ["axes", "keepdims"]⟩, ⟨13, 1, 1, 1, 1, false, ["axes", "keepdims"]⟩,
-                   ⟨18, 1, 2, 1, 1, false, ["keepdims", "noop_with_empty_axes"]⟩]),
-   ("Swish", [⟨24, 1, 1, 1, 1, false, ["alpha"]⟩]),
-   ("Loop", [⟨21, 2, 1000, 1, 1000, false, ["body"]⟩])]
+  [("ReduceMean", [⟨1, 1, 1, 1, 1, false, ["axes", "keepdims"], [], [], false⟩, ⟨13, 1, 1, 1, 1, false, ["axes", "keepdims"], [], [], false⟩,
+                   ⟨18, 1, 2, 1, 1, false, ["keepdims", "noop_with_empty_axes"], [], [], false⟩]),
+   ("Swish", [⟨24, 1, 1, 1, 1, false, ["alpha"], [], [], false⟩]),
+   ("Loop", [⟨21, 2, 1000, 1, 1000, false, ["body"], [], [], false⟩])]
 
 def exM (v : Nat) (nodes : List Node) : Model :=
   { imports := [("", v)], graph := .mk ["x", "ax"] [] nodes ["y"] [], funcs := [] }
@@ -249,7 +352,30 @@ example : opsetLegal exS (exM 23 [.mk "" "Loop" ["x", "ax"] ["y"] ["body"]
     [.mk [] [] [.mk "" "Swish" ["x"] ["z"] [] []] ["z"] []]]) = false := by decide
 example : opsetLegal exS (exM 24 [.mk "" "Loop" ["x", "ax"] ["y"] ["body"]
     [.mk [] [] [.mk "" "Swish" ["x"] ["z"] [] []] ["z"] []]]) = true := by decide
-example : sigAt [⟨1, 1, 1, 1, 1, false, []⟩, ⟨18, 1, 2, 1, 1, false, []⟩, ⟨13, 1, 1, 1, 1, false, []⟩] 17
-    = some ⟨13, 1, 1, 1, 1, false, []⟩ := by decide
+example : sigAt [⟨1, 1, 1, 1, 1, false, [], [], [], false⟩, ⟨18, 1, 2, 1, 1, false, [], [], [], false⟩, ⟨13, 1, 1, 1, 1, false, [], [], [], false⟩] 17
+    = some ⟨13, 1, 1, 1, 1, false, [], [], [], false⟩ := by decide
+
+
+def exT : Schemas :=
+  [("Range", [⟨11, 3, 3, 1, 1, false, [], [[1, 11, 5, 6, 7], [1, 11, 5, 6, 7], [1, 11, 5, 6, 7]], [1, 1, 1], false⟩,
+              ⟨27, 3, 3, 1, 1, false, [], [[1, 11, 5, 6, 7, 10, 16], [1, 11, 5, 6, 7, 10, 16], [1, 11, 5, 6, 7, 10, 16]], [1, 1, 1], false⟩]),
+   ("Add", [⟨14, 2, 2, 1, 1, false, [], [[1, 11, 6, 7, 10, 16], [1, 11, 6, 7, 10, 16]], [1, 1], false⟩])]
+
+def exTM (v : Nat) (nodes : List Node) (vi : List (String × Annot)) : Model :=
+  { imports := [("", v)], graph := .mk ["a", "b", "c"] [] nodes ["y"] vi, funcs := [] }
+
+-- bfloat16 (16) operands of Range: not admitted at opset 26, admitted at 27
+example : typesLegal exT (exTM 26 [.mk "" "Range" ["a", "b", "c"] ["y"] [] []]
+    [("a", ⟨some 16, some []⟩), ("b", ⟨some 16, some []⟩), ("c", ⟨some 16, some []⟩)]) = false := by decide
+example : typesLegal exT (exTM 27 [.mk "" "Range" ["a", "b", "c"] ["y"] [] []]
+    [("a", ⟨some 16, some []⟩), ("b", ⟨some 16, some []⟩), ("c", ⟨some 16, some []⟩)]) = true := by decide
+-- Add(int32, int64): one type variable, two element types – also inside a loop body that captures `a`
+example : typesLegal exT (exTM 23 [.mk "" "Add" ["a", "b"] ["y"] [] []]
+    [("a", ⟨some 6, none⟩), ("b", ⟨some 7, none⟩)]) = false := by decide
+example : typesLegal exT (exTM 23 [.mk "" "Loop" ["c"] ["y"] ["body"]
+    [.mk ["i"] [] [.mk "" "Add" ["i", "a"] ["z"] [] []] ["z"] [("i", ⟨some 7, none⟩)]]]
+    [("a", ⟨some 6, none⟩)]) = false := by decide
+example : TypesHonoured exT (exTM 23 [.mk "" "Add" ["a", "b"] ["y"] [] []]
+    [("a", ⟨some 6, none⟩), ("b", ⟨some 6, none⟩)]) := typesLegal_sound _ _ (by decide)
 
 end J2O.C11
